@@ -1,0 +1,741 @@
+//! C01 adapter: the identity check of the Noise handshake behind the line protocol.
+//!
+//! * `pubkey <i>` / `sign <i> <msg hex>`: the deterministic identity key number `i` (real
+//!   `ed25519::Keypair`), used by the plugin to build payloads with real signatures;
+//! * `pv <payload hex> <remote static hex> vk=<key32 hex|-> vs=<sig hex|->`: the payload is decoded with the
+//!   prost-generated decoder exactly like `handshake()` does and handed to the real
+//!   `parse_and_verify_peer_id`. `vp`/`vf` in the answer are what the ed25519 primitives say about the key
+//!   bytes `vk` (point validity) and about `(vk, domain ++ static, vs)` (signature validity); the model takes
+//!   its `validPoint`/`verify` parameters from them, so only the decision logic is compared;
+//! * `hs …`: the real `handshake()` for both roles (optionally two concurrent sessions) over in-memory pipes
+//!   with a scripted man-in-the-middle acting on the three framed handshake messages, random chunking and
+//!   `Pending` injection, on a paused tokio clock (dialer timeout 300 ms, listener 400 ms of virtual time);
+//! * `rg …`: an honest `handshake()` against a rogue endpoint that runs the real Noise code
+//!   (`NoiseContext`) with its own static key but a forged identity payload.
+//!
+//! Observations per side: `ok k<i>@<owner>` (peer id of identity key `i`; `<owner>` names the identity key
+//! that signed the static key the returned socket is bound to, as recorded at the moment of signing by the
+//! guarded hook in `NoiseContext::assemble`, `r` for the rogue's static key) or `err <class>`.
+
+use super::{
+    handshake, handshake_schema, parse_and_verify_peer_id, HandshakeTransport, NoiseContext,
+    NoiseSocket, NoiseState, STATIC_KEY_DOMAIN,
+};
+use crate::{
+    config::Role,
+    crypto::ed25519::{self, Keypair},
+    error::{NegotiationError, ParseError},
+    verif::{hex, kv, unhex, VerifBox},
+    PeerId,
+};
+
+use futures::io::{AsyncRead, AsyncWrite, AsyncWriteExt};
+use prost::Message;
+
+use std::{
+    cell::RefCell,
+    collections::VecDeque,
+    io,
+    pin::Pin,
+    rc::Rc,
+    task::{Context, Poll, Waker},
+    time::Duration,
+};
+
+/// Number of deterministic identity keys.
+const KEYS: usize = 16;
+
+/// Identity key number `i`.
+pub(crate) fn key(i: usize) -> Keypair {
+    let mut seed = [0u8; 32];
+    seed[0] = i as u8;
+    seed[1] = 0xc0;
+    seed[31] = 1;
+    Keypair::from(ed25519::SecretKey::try_from_bytes(seed).expect("32 bytes"))
+}
+
+fn key_index_of_peer(p: &PeerId) -> Option<usize> {
+    (0..KEYS).find(|i| key(*i).public().to_peer_id() == *p)
+}
+
+fn key_index_of_pub(k: &[u8]) -> Option<usize> {
+    (0..KEYS).find(|i| key(*i).public().to_bytes()[..] == *k)
+}
+
+fn parse_class(e: &ParseError) -> &'static str {
+    match e {
+        ParseError::ProstDecodeError(_) => "parse",
+        ParseError::UnknownKeyType(_) => "key-type",
+        ParseError::InvalidPublicKey => "key-invalid",
+        _ => "parse-other",
+    }
+}
+
+fn class(e: &NegotiationError) -> &'static str {
+    match e {
+        NegotiationError::SnowError(_) => "snow",
+        NegotiationError::PeerIdMissing => "peer-id-missing",
+        NegotiationError::BadSignature => "bad-signature",
+        NegotiationError::Timeout => "timeout",
+        NegotiationError::ParseError(p) => parse_class(p),
+        NegotiationError::IoError(_) => "io",
+        NegotiationError::StateMismatch => "state",
+        NegotiationError::PeerIdMismatch(_, _) => "peer-id-mismatch",
+        _ => "other",
+    }
+}
+
+// ---------------------------------------------------------------------------------------------
+// scripted network
+
+#[derive(Clone, Copy, PartialEq, Debug)]
+enum Act {
+    Pass,
+    Flip(usize, u8),
+    Trunc(usize),
+    Ext(usize),
+    Cut(usize),
+    Drop,
+    Swap,
+    From2,
+}
+
+fn parse_act(s: &str) -> Option<Act> {
+    let p: Vec<&str> = s.split(':').collect();
+    let n = |x: &str| x.parse::<usize>().ok();
+    match p.as_slice() {
+        ["pass"] => Some(Act::Pass),
+        ["flip", o, m] => {
+            let m = n(m)?;
+            if m == 0 || m > 255 {
+                return None;
+            }
+            Some(Act::Flip(n(o)?, m as u8))
+        }
+        ["trunc", k] => Some(Act::Trunc(n(k)?)),
+        ["ext", k] => {
+            let k = n(k)?;
+            if k == 0 || k > 64 {
+                return None;
+            }
+            Some(Act::Ext(k))
+        }
+        ["cut", k] => Some(Act::Cut(n(k)?)),
+        ["drop"] => Some(Act::Drop),
+        ["swap"] => Some(Act::Swap),
+        ["from2"] => Some(Act::From2),
+        _ => None,
+    }
+}
+
+#[derive(Default)]
+struct Link {
+    acc: Vec<u8>,
+    inbox: VecDeque<u8>,
+    closed: bool,
+    waker: Option<Waker>,
+    frames: usize,
+}
+
+struct World {
+    /// `links[session][dir]`, dir 0 = dialer -> listener, 1 = listener -> dialer.
+    links: [[Link; 2]; 2],
+    acts: [[Act; 3]; 2],
+    seen: [[Option<Vec<u8>>; 3]; 2],
+    held: [[Option<Vec<u8>>; 3]; 2],
+    eof: bool,
+    rng: u64,
+    chunked: bool,
+}
+
+impl World {
+    fn new(acts: [[Act; 3]; 2], eof: bool, seed: u64) -> Self {
+        Self {
+            links: Default::default(),
+            acts,
+            seen: Default::default(),
+            held: Default::default(),
+            eof,
+            rng: seed.wrapping_mul(0x9E37_79B9_7F4A_7C15) | 1,
+            chunked: seed != 0,
+        }
+    }
+
+    fn rand(&mut self) -> u64 {
+        self.rng ^= self.rng << 13;
+        self.rng ^= self.rng >> 7;
+        self.rng ^= self.rng << 17;
+        self.rng
+    }
+
+    fn deliver(&mut self, s: usize, dir: usize, bytes: &[u8]) {
+        let l = &mut self.links[s][dir];
+        l.inbox.extend(bytes.iter().copied());
+        if let Some(w) = l.waker.take() {
+            w.wake();
+        }
+    }
+
+    fn close(&mut self, s: usize, dir: usize) {
+        let l = &mut self.links[s][dir];
+        l.closed = true;
+        if let Some(w) = l.waker.take() {
+            w.wake();
+        }
+    }
+
+    /// Direction of handshake message `k` (0-based).
+    fn dir_of(k: usize) -> usize {
+        if k == 1 {
+            1
+        } else {
+            0
+        }
+    }
+
+    fn reframe(body: &[u8]) -> Vec<u8> {
+        let mut v = (body.len() as u16).to_be_bytes().to_vec();
+        v.extend_from_slice(body);
+        v
+    }
+
+    /// A complete framed message `k` of session `s` is in flight.
+    fn in_flight(&mut self, s: usize, k: usize, msg: Vec<u8>) {
+        let dir = Self::dir_of(k);
+        self.seen[s][k] = Some(msg.clone());
+        match self.acts[s][k] {
+            Act::Pass => self.deliver(s, dir, &msg),
+            Act::Flip(off, mask) => {
+                let mut m = msg;
+                let n = m.len();
+                m[off % n] ^= mask;
+                self.deliver(s, dir, &m);
+            }
+            Act::Trunc(n) => {
+                let body = &msg[2..];
+                let n = n % body.len().max(1);
+                let m = Self::reframe(&body[..n]);
+                self.deliver(s, dir, &m);
+            }
+            Act::Ext(n) => {
+                let mut body = msg[2..].to_vec();
+                body.extend(std::iter::repeat(0x5a).take(n));
+                let m = Self::reframe(&body);
+                self.deliver(s, dir, &m);
+            }
+            Act::Cut(n) => {
+                let n = n % msg.len();
+                let part = msg[..n].to_vec();
+                self.deliver(s, dir, &part);
+                if self.eof {
+                    self.close(s, dir);
+                }
+            }
+            Act::Drop =>
+                if self.eof {
+                    self.close(s, dir);
+                },
+            Act::Swap | Act::From2 => self.held[s][k] = Some(msg),
+        }
+        for k in 0..3 {
+            let dir = Self::dir_of(k);
+            if self.acts[0][k] == Act::From2 && self.held[0][k].is_some() {
+                if let Some(m) = self.seen[1][k].clone() {
+                    self.held[0][k] = None;
+                    self.deliver(0, dir, &m);
+                }
+            }
+            if self.acts[0][k] == Act::Swap && self.held[0][k].is_some() && self.held[1][k].is_some()
+            {
+                let a = self.held[0][k].take().expect("held");
+                let b = self.held[1][k].take().expect("held");
+                self.deliver(0, dir, &b);
+                self.deliver(1, dir, &a);
+            }
+        }
+    }
+
+    /// Bytes written by the sender of `(s, dir)`: cut into framed messages.
+    fn written(&mut self, s: usize, dir: usize, buf: &[u8]) {
+        self.links[s][dir].acc.extend_from_slice(buf);
+        loop {
+            let l = &mut self.links[s][dir];
+            if l.acc.len() < 2 {
+                return;
+            }
+            let need = 2 + ((l.acc[0] as usize) << 8 | l.acc[1] as usize);
+            if l.acc.len() < need {
+                return;
+            }
+            let msg: Vec<u8> = l.acc.drain(..need).collect();
+            let idx = l.frames;
+            l.frames += 1;
+            let k = match (dir, idx) {
+                (0, 0) => Some(0),
+                (1, 0) => Some(1),
+                (0, 1) => Some(2),
+                _ => None,
+            };
+            match k {
+                Some(k) => self.in_flight(s, k, msg),
+                None => self.deliver(s, dir, &msg),
+            }
+        }
+    }
+}
+
+/// One end of a pipe. `side` 0 = dialer, 1 = listener. The dialer reads link 1 and writes link 0.
+struct End {
+    world: Rc<RefCell<World>>,
+    session: usize,
+    side: usize,
+}
+
+impl AsyncRead for End {
+    fn poll_read(
+        self: Pin<&mut Self>,
+        cx: &mut Context<'_>,
+        buf: &mut [u8],
+    ) -> Poll<io::Result<usize>> {
+        let mut w = self.world.borrow_mut();
+        let dir = 1 - self.side;
+        let chunked = w.chunked;
+        let r = if chunked { w.rand() } else { 0 };
+        let l = &mut w.links[self.session][dir];
+        if l.inbox.is_empty() {
+            if l.closed {
+                return Poll::Ready(Ok(0));
+            }
+            l.waker = Some(cx.waker().clone());
+            return Poll::Pending;
+        }
+        if chunked && r % 4 == 0 {
+            // spurious Pending with an immediate wake-up
+            cx.waker().wake_by_ref();
+            return Poll::Pending;
+        }
+        let cap = if chunked { 1 + (r >> 8) as usize % 40 } else { usize::MAX };
+        let n = buf.len().min(l.inbox.len()).min(cap);
+        for slot in buf.iter_mut().take(n) {
+            *slot = l.inbox.pop_front().expect("byte");
+        }
+        Poll::Ready(Ok(n))
+    }
+}
+
+impl AsyncWrite for End {
+    fn poll_write(
+        self: Pin<&mut Self>,
+        _cx: &mut Context<'_>,
+        buf: &[u8],
+    ) -> Poll<io::Result<usize>> {
+        let mut w = self.world.borrow_mut();
+        let n = if w.chunked { 1 + (w.rand() >> 8) as usize % 50 } else { usize::MAX };
+        let n = n.min(buf.len());
+        w.written(self.session, self.side, &buf[..n]);
+        Poll::Ready(Ok(n))
+    }
+
+    fn poll_flush(self: Pin<&mut Self>, _cx: &mut Context<'_>) -> Poll<io::Result<()>> {
+        Poll::Ready(Ok(()))
+    }
+
+    fn poll_close(self: Pin<&mut Self>, _cx: &mut Context<'_>) -> Poll<io::Result<()>> {
+        Poll::Ready(Ok(()))
+    }
+}
+
+impl Drop for End {
+    fn drop(&mut self) {
+        if let Ok(mut w) = self.world.try_borrow_mut() {
+            if w.eof {
+                w.close(self.session, self.side);
+            }
+        }
+    }
+}
+
+// ---------------------------------------------------------------------------------------------
+
+type HsResult = Result<(NoiseSocket<End>, PeerId), NegotiationError>;
+
+/// `ok k<i>@<owner>` / `err <class>`; `rogue_static` is the static key of the rogue endpoint, if any.
+fn show(res: &HsResult, rogue_static: Option<&[u8]>) -> String {
+    match res {
+        Err(e) => format!("err {}", class(e)),
+        Ok((socket, peer)) => {
+            let id = match key_index_of_peer(peer) {
+                Some(i) => format!("k{i}"),
+                None => hex(&peer.to_bytes()),
+            };
+            let rs: Option<Vec<u8>> = match &socket.noise.noise {
+                NoiseState::Transport(t) => t.get_remote_static().map(|s| s.to_vec()),
+                NoiseState::Handshake(_) => None,
+            };
+            let owner = match rs {
+                None => "none".to_string(),
+                Some(rs) if Some(&rs[..]) == rogue_static => "r".to_string(),
+                Some(rs) => match crate::verif::c01_static_signer(&rs) {
+                    Some(idk) => match key_index_of_pub(&idk) {
+                        Some(j) => format!("k{j}"),
+                        None => "x".to_string(),
+                    },
+                    None => "?".to_string(),
+                },
+            };
+            format!("ok {id}@{owner}")
+        }
+    }
+}
+
+const T_DIALER: Duration = Duration::from_millis(300);
+const T_LISTENER: Duration = Duration::from_millis(400);
+
+async fn honest(io: End, k: Keypair, role: Role) -> HsResult {
+    let t = match role {
+        Role::Dialer => T_DIALER,
+        Role::Listener => T_LISTENER,
+    };
+    handshake(io, &k, role, 1, 1, t, HandshakeTransport::Tcp).await
+}
+
+/// What the rogue puts into its identity payload.
+#[derive(Clone, Debug)]
+struct Forge {
+    /// advertised key: `Some((index, type tag))` or none
+    pk: Option<(usize, u8)>,
+    sig: ForgeSig,
+}
+
+#[derive(Clone, Debug)]
+enum ForgeSig {
+    None,
+    Empty,
+    /// signed by key `.0` over the rogue's own static key (the correct binding)
+    Own(usize),
+    /// signed by key `.0` over 32 zero bytes
+    Zero(usize),
+    /// the complete payload of honest party `.0`, captured in another session
+    Relay(usize),
+}
+
+fn parse_forge(pk: &str, sig: &str) -> Option<Forge> {
+    let idx = |s: &str| s.parse::<usize>().ok().filter(|i| *i < KEYS);
+    let pk = match pk {
+        "none" => None,
+        s if s.starts_with("bt") => Some((idx(&s[2..])?, 2u8)),
+        s if s.starts_with('k') => Some((idx(&s[1..])?, 1u8)),
+        _ => return None,
+    };
+    let sig = match sig {
+        "none" => ForgeSig::None,
+        "empty" => ForgeSig::Empty,
+        s if s.starts_with("own") => ForgeSig::Own(idx(&s[3..])?),
+        s if s.starts_with("zero") => ForgeSig::Zero(idx(&s[4..])?),
+        s if s.starts_with("relay") => ForgeSig::Relay(idx(&s[5..])?),
+        _ => return None,
+    };
+    Some(Forge { pk, sig })
+}
+
+fn pb_bytes(tag: u8, b: &[u8], out: &mut Vec<u8>) {
+    out.push(tag << 3 | 2);
+    let mut n = b.len();
+    loop {
+        if n < 128 {
+            out.push(n as u8);
+            break;
+        }
+        out.push((n % 128) as u8 | 0x80);
+        n /= 128;
+    }
+    out.extend_from_slice(b);
+}
+
+fn forge_payload(f: &Forge, own_static: &[u8], relayed: Option<Vec<u8>>) -> Vec<u8> {
+    if let (ForgeSig::Relay(_), Some(p)) = (&f.sig, relayed) {
+        return p;
+    }
+    let mut out = Vec::new();
+    if let Some((i, ty)) = f.pk {
+        let mut enc = vec![0x08, ty, 0x12, 0x20];
+        enc.extend_from_slice(&key(i).public().to_bytes());
+        pb_bytes(1, &enc, &mut out);
+    }
+    let signed = |i: usize, st: &[u8]| key(i).sign(&[STATIC_KEY_DOMAIN.as_bytes(), st].concat());
+    match f.sig {
+        ForgeSig::None | ForgeSig::Relay(_) => {}
+        ForgeSig::Empty => pb_bytes(2, &[], &mut out),
+        ForgeSig::Own(i) => pb_bytes(2, &signed(i, own_static), &mut out),
+        ForgeSig::Zero(i) => pb_bytes(2, &signed(i, &[0u8; 32]), &mut out),
+    }
+    out
+}
+
+/// The rogue endpoint: the real Noise code with its own identity `id` and static key, `forged`
+/// (a function of its static key) as payload. Returns the payload it received and its static key.
+async fn rogue(
+    mut io: End,
+    id: Keypair,
+    role: Role,
+    forged: impl FnOnce(&[u8]) -> Vec<u8>,
+    static_out: Rc<RefCell<Option<Vec<u8>>>>,
+) -> Result<Vec<u8>, NegotiationError> {
+    let mut noise = NoiseContext::new(&id, role)?;
+    let st = noise.keypair.public.clone();
+    *static_out.borrow_mut() = Some(st.clone());
+    noise.payload = forged(&st);
+    let fut = async {
+        match role {
+            Role::Dialer => {
+                let m1 = noise.first_message(Role::Dialer)?;
+                io.write_all(&m1).await?;
+                let theirs = noise.read_handshake_message(&mut io).await?;
+                let m3 = noise.second_message()?;
+                io.write_all(&m3).await?;
+                Ok::<_, NegotiationError>(theirs.to_vec())
+            }
+            Role::Listener => {
+                let _ = noise.read_handshake_message(&mut io).await?;
+                let m2 = noise.second_message()?;
+                io.write_all(&m2).await?;
+                let theirs = noise.read_handshake_message(&mut io).await?;
+                Ok(theirs.to_vec())
+            }
+        }
+    };
+    let res = match tokio::time::timeout(Duration::from_millis(500), fut).await {
+        Err(_) => Err(NegotiationError::Timeout),
+        Ok(r) => r,
+    };
+    res
+}
+
+pub struct IdentityBox {
+    rt: tokio::runtime::Runtime,
+}
+
+impl IdentityBox {
+    pub fn new() -> Self {
+        Self {
+            rt: tokio::runtime::Builder::new_current_thread()
+                .enable_time()
+                .start_paused(true)
+                .build()
+                .expect("runtime"),
+        }
+    }
+
+    fn pv(&self, t: &[&str]) -> String {
+        let [payload, rs, rest @ ..] = t else { return "bad-op".into() };
+        let args = kv(rest);
+        let b = |s: &str| if s == "-" { Vec::new() } else { unhex(s) };
+        let ok_hex = |s: &str| s == "-" || (s.len() % 2 == 0 && s.bytes().all(|c| c.is_ascii_hexdigit()));
+        let (vk, vs) = (args.get("vk").copied().unwrap_or("-"), args.get("vs").copied().unwrap_or("-"));
+        if ![*payload, *rs, vk, vs].iter().all(|s| ok_hex(s)) {
+            return "bad-op".into();
+        }
+        let (payload, rs, vk, vs) = (b(payload), b(rs), b(vk), b(vs));
+        // what the primitives say (outside the decision logic under test)
+        let pk = ed25519::PublicKey::try_from_bytes(&vk).ok();
+        let vp = pk.is_some() as u8;
+        let vf = pk
+            .map(|pk| pk.verify(&[STATIC_KEY_DOMAIN.as_bytes(), &rs[..]].concat(), &vs))
+            .unwrap_or(false) as u8;
+        let res = match handshake_schema::NoiseHandshakePayload::decode(payload.as_slice()) {
+            Err(_) => "err parse".to_string(),
+            Ok(p) => match parse_and_verify_peer_id(p, &rs) {
+                Ok(peer) => format!("ok {}", hex(&peer.to_bytes())),
+                Err(NegotiationError::ParseError(ParseError::ProstDecodeError(_))) =>
+                    "err key-decode".to_string(),
+                Err(e) => format!("err {}", class(&e)),
+            },
+        };
+        format!("{res} vp={vp} vf={vf}")
+    }
+
+    fn hs(&self, t: &[&str]) -> String {
+        let args = kv(t);
+        let idx = |k: &str| args.get(k).and_then(|s| s.parse::<usize>().ok()).filter(|i| *i < KEYS);
+        let (Some(d), Some(l)) = (idx("d"), idx("l")) else { return "bad-op".into() };
+        let second = match (args.get("d2"), args.get("l2")) {
+            (None, None) => None,
+            _ => match (idx("d2"), idx("l2")) {
+                (Some(a), Some(b)) => Some((a, b)),
+                _ => return "bad-op".into(),
+            },
+        };
+        let mut acts = [[Act::Pass; 3]; 2];
+        for (k, name) in ["m1", "m2", "m3"].iter().enumerate() {
+            if let Some(a) = args.get(name) {
+                let Some(a) = parse_act(a) else { return "bad-op".into() };
+                if matches!(a, Act::Swap | Act::From2) && second.is_none() {
+                    return "bad-op".into();
+                }
+                acts[0][k] = a;
+                if a == Act::Swap {
+                    acts[1][k] = Act::Swap;
+                }
+            }
+        }
+        let eof = match args.get("eof").copied() {
+            None | Some("0") => false,
+            Some("1") => true,
+            _ => return "bad-op".into(),
+        };
+        let seed = match args.get("ch") {
+            None => 0,
+            Some(s) => match s.parse::<u64>() {
+                Ok(s) => s,
+                Err(_) => return "bad-op".into(),
+            },
+        };
+        crate::verif::c01_clear_statics();
+        let world = Rc::new(RefCell::new(World::new(acts, eof, seed)));
+        let end = |session, side| End { world: world.clone(), session, side };
+        let out = self.rt.block_on(async {
+            match second {
+                None => {
+                    let (a, b) = tokio::join!(
+                        honest(end(0, 0), key(d), Role::Dialer),
+                        honest(end(0, 1), key(l), Role::Listener)
+                    );
+                    format!("D={} L={}", show(&a, None), show(&b, None))
+                }
+                Some((d2, l2)) => {
+                    let (a, b, c, e) = tokio::join!(
+                        honest(end(0, 0), key(d), Role::Dialer),
+                        honest(end(0, 1), key(l), Role::Listener),
+                        honest(end(1, 0), key(d2), Role::Dialer),
+                        honest(end(1, 1), key(l2), Role::Listener)
+                    );
+                    format!(
+                        "D={} L={} D2={} L2={}",
+                        show(&a, None),
+                        show(&b, None),
+                        show(&c, None),
+                        show(&e, None)
+                    )
+                }
+            }
+        });
+        out.replace("ok ", "ok:").replace("err ", "err:")
+    }
+
+    fn rg(&self, t: &[&str]) -> String {
+        let args = kv(t);
+        let idx = |k: &str| args.get(k).and_then(|s| s.parse::<usize>().ok()).filter(|i| *i < KEYS);
+        let (Some(v), Some(r)) = (idx("v"), idx("r")) else { return "bad-op".into() };
+        // role of the ROGUE
+        let role = match args.get("role").copied() {
+            Some("dialer") => Role::Dialer,
+            Some("listener") => Role::Listener,
+            _ => return "bad-op".into(),
+        };
+        let Some(forge) = parse_forge(args.get("pk").copied().unwrap_or(""), args.get("sig").copied().unwrap_or(""))
+        else {
+            return "bad-op".into();
+        };
+        let seed = args.get("ch").and_then(|s| s.parse::<u64>().ok()).unwrap_or(0);
+        crate::verif::c01_clear_statics();
+        let pass = [[Act::Pass; 3]; 2];
+        // a relayed payload is first captured from the honest party in a session of its own
+        let relayed = match forge.sig {
+            ForgeSig::Relay(x) => {
+                let world = Rc::new(RefCell::new(World::new(pass, false, 0)));
+                let st = Rc::new(RefCell::new(None));
+                let (got, _) = self.rt.block_on(async {
+                    tokio::join!(
+                        rogue(
+                            End { world: world.clone(), session: 0, side: 0 },
+                            key(r),
+                            Role::Dialer,
+                            |s| forge_payload(
+                                &Forge { pk: Some((r, 1)), sig: ForgeSig::Own(r) },
+                                s,
+                                None
+                            ),
+                            st.clone()
+                        ),
+                        honest(End { world: world.clone(), session: 0, side: 1 }, key(x), Role::Listener)
+                    )
+                });
+                match got {
+                    Ok(p) => Some(p),
+                    Err(_) => return "err relay-capture".into(),
+                }
+            }
+            _ => None,
+        };
+        let world = Rc::new(RefCell::new(World::new(pass, false, seed)));
+        let st = Rc::new(RefCell::new(None));
+        let (rside, vside, vrole) = match role {
+            Role::Dialer => (0, 1, Role::Listener),
+            Role::Listener => (1, 0, Role::Dialer),
+        };
+        let f2 = forge.clone();
+        let (rres, vres) = self.rt.block_on(async {
+            tokio::join!(
+                rogue(
+                    End { world: world.clone(), session: 0, side: rside },
+                    key(r),
+                    role,
+                    move |s| forge_payload(&f2, s, relayed),
+                    st.clone()
+                ),
+                honest(End { world: world.clone(), session: 0, side: vside }, key(v), vrole)
+            )
+        });
+        let rs = st.borrow().clone();
+        let r_obs = match rres {
+            Ok(_) => "done".to_string(),
+            Err(e) => format!("err:{}", class(&e)),
+        };
+        format!("V={} R={}", show(&vres, rs.as_deref()).replace(' ', ":"), r_obs)
+    }
+}
+
+impl VerifBox for IdentityBox {
+    fn step(&mut self, line: &str) -> String {
+        let t: Vec<&str> = line.split_whitespace().collect();
+        match t.as_slice() {
+            ["pubkey", i] => match i.parse::<usize>() {
+                Ok(i) if i < KEYS => format!("ok {}", hex(&key(i).public().to_bytes())),
+                _ => "bad-op".into(),
+            },
+            ["sign", i, msg] => match i.parse::<usize>() {
+                Ok(i) if i < KEYS => {
+                    let m = if *msg == "-" { Vec::new() } else { unhex(msg) };
+                    format!("ok {}", hex(&key(i).sign(&m)))
+                }
+                _ => "bad-op".into(),
+            },
+            ["pv", rest @ ..] => self.pv(rest),
+            ["hs", rest @ ..] => self.hs(rest),
+            ["rg", rest @ ..] => self.rg(rest),
+            ["nc", rest @ ..] => {
+                let args = kv(rest);
+                let idx = |k: &str| args.get(k).and_then(|s| s.parse::<usize>().ok()).filter(|i| *i < KEYS);
+                let (Some(d), Some(l)) = (idx("d"), idx("l")) else { return "bad-op".into() };
+                let dialed = match args.get("dialed").copied() {
+                    Some("none") => None,
+                    Some(_) => match idx("dialed") {
+                        Some(i) => Some(i),
+                        None => return "bad-op".into(),
+                    },
+                    None => return "bad-op".into(),
+                };
+                // only the body of handshake message 3 (stream offsets 64..232 of the dialer's output)
+                let flip = match args.get("flip") {
+                    None => None,
+                    Some(s) => match s.parse::<usize>() {
+                        Ok(o) if (64..232).contains(&o) => Some(o),
+                        _ => return "bad-op".into(),
+                    },
+                };
+                crate::transport::tcp::verif_c01_tcp::negotiate(d, l, dialed, flip)
+            }
+            _ => "bad-op".into(),
+        }
+    }
+}
